@@ -7,6 +7,7 @@ import sys
 from vf.runner import Acc
 
 ID = "C19"
+OPT_QUICK_ALL = True      # every partition also in a child interpreter started with -O
 LEVEL = "exploration"
 TECHNIQUE = "complete enumeration of the 4 binding-presence combinations (one fresh interpreter each) x every module import x every command class x every device-string/mode/initiator call of the three factories, file opens observed by a sys.addaudithook recorder and connections by the stand-in Context"
 RULE = ("9 combinations of {not installed, present, installed but unloadable (import raises a plain ImportError)} for (sgio, iscsi) x 4 orders of the factory calls (as listed, reversed, explicit-names-first, interleaved), each in its own subprocess: import of every module under pyscsi; construction + CDB encode/decode "
@@ -32,7 +33,7 @@ def run_child(sg, isc, order=0):
     env["PYTHONHASHSEED"] = "0"
     root = os.path.dirname(os.path.dirname(os.path.dirname(os.path.abspath(__file__))))
     env["PYTHONPATH"] = root
-    p = subprocess.run([sys.executable, "-m", "vf.props.c19_child", os.environ.get("VF_REPO", "/repo"), str(sg), str(isc), str(order)],
+    p = subprocess.run([sys.executable] + (["-O"] if sys.flags.optimize else []) + ["-m", "vf.props.c19_child", os.environ.get("VF_REPO", "/repo"), str(sg), str(isc), str(order)],
                        capture_output=True, text=True, env=env, cwd=root, timeout=600)
     if p.returncode != 0:
         # the library could not even be driven in this configuration
